@@ -109,17 +109,32 @@ def vote_records(cands):
             for r in range(len(rest) + 1):
                 for E in itertools.combinations(rest, r):
                     asns.append(("NEN", w, l, list(E)))
-    for kind, w, l, E in asns:
-        if kind == "NEB":
-            ra = NEBAssertion("con", w, l)
-            js = [{"winner": w, "loser": l, "assertion_type": "WINNER_ONLY", "already_eliminated": ""}]
+    # the audit builds all assertions of a contest in one call: the k-th assertion of the JSON list is the k-th entry
+    def js_of(kind, w, l, E):
+        return ({"winner": w, "loser": l, "assertion_type": "WINNER_ONLY", "already_eliminated": ""} if kind == "NEB" else
+                {"winner": w, "loser": l, "assertion_type": "IRV_ELIMINATION", "already_eliminated": list(E)})
+    together = None
+    try:
+        d = Assertion.make_assertions_from_json(contest=con, candidates=list(cands),
+                                                json_assertions=[js_of(*a) for a in asns], test=NonnegMean.alpha_mart,
+                                                estim=NonnegMean.fixed_alternative_mean)
+        if len(d) == len(asns):
+            together = list(d.values())
         else:
-            ra = NENAssertion("con", w, l, list(E))
-            js = [{"winner": w, "loser": l, "assertion_type": "IRV_ELIMINATION", "already_eliminated": list(E)}]
+            recs.append({"kind": "reader", "tid": "vfamily", "exc": {"type": f"AssertionsLost{len(asns) - len(d)}",
+                                                                     "site": "Audit.py:make_assertions_from_json"}})
+    except Exception as ex:
+        recs.append({"kind": "reader", "tid": "vfamily", "exc": {"type": type(ex).__name__, "site": core.exc_site(ex)}})
+    for ai, (kind, w, l, E) in enumerate(asns):
+        ra = NEBAssertion("con", w, l) if kind == "NEB" else NENAssertion("con", w, l, list(E))
         try:
-            aa = next(iter(Assertion.make_assertions_from_json(contest=con, candidates=list(cands), json_assertions=js,
-                                                               test=NonnegMean.alpha_mart,
-                                                               estim=NonnegMean.fixed_alternative_mean).values()))
+            if together is not None and ai % 2 == 0:
+                aa = together[ai]
+            else:
+                aa = next(iter(Assertion.make_assertions_from_json(contest=con, candidates=list(cands),
+                                                                   json_assertions=[js_of(kind, w, l, E)],
+                                                                   test=NonnegMean.alpha_mart,
+                                                                   estim=NonnegMean.fixed_alternative_mean).values()))
         except Exception as ex:
             recs.append({"kind": "reader", "tid": f"v{k}", "exc": {"type": type(ex).__name__, "site": core.exc_site(ex)}})
             k += 1
@@ -157,7 +172,7 @@ def reader_records(rng, n):
             bid = f"99{bi}"
             for cid, cands in cons.items():
                 if ncon == 1 or rng.random() < 0.7:
-                    L = rng.randint(0 if False else 1, len(cands))
+                    L = rng.randint(0, len(cands))          # a row may rank nobody
                     prefs = rng.sample(cands, L)
                     rows.append({"cid": cid, "bid": bid, "prefs": prefs})
         if not rows:
@@ -249,15 +264,16 @@ def run(pid, tier):
             recs.append(run_search(f"s{k}", cands3, prof, w, rng.choice(["cp", "bp"]), None))
             k += 1
     # beyond the exhaustive bound: 4 and 5 candidates, larger profiles (the specification still decides each case)
-    nbig = ({"C04": 500, "C15": 1500, "C14": 150}[pid] if tier == "quick" else 8000)
+    nbig = ({"C04": 2000, "C15": 1500, "C14": 150}[pid] if tier == "quick" else 8000)
     ranks_by = {}
     for j in range(nbig):
         nc = rng.choice([4, 4, 4, 5]) if j % 5 else 3
-        cands = ["A", "B", "C", "D", "E"][:nc]
-        ranks = ranks_by.setdefault(nc, all_rankings(cands))
-        prof = [rng.choice(ranks) for _ in range(rng.randint(3, 9 if nc < 5 else 6))]
+        # identifiers as in real exports: numeric strings, some of them concatenations of others ("1","2","12")
+        cands = (["A", "B", "C", "D", "E"] if j % 2 else ["1", "2", "12", "3", "21"])[:nc]
+        ranks = ranks_by.setdefault((nc, cands[0]), all_rankings(cands))
+        prof = [rng.choice(ranks) for _ in range(rng.randint(3, 11 if nc < 5 else 6))]
         # most cases: the true winner is reported (an audit is possible), with an elimination-order hint
-        w = rng.choice(cands)
+        w = irv_winner(cands, prof) if j % 4 else rng.choice(cands)
         hint = None if j % 4 == 0 else rng.sample(cands, nc)
         tot = len(prof) + (0 if j % 3 else rng.choice([1, 2, len(prof) // 2 + 1]))
         fns = rng.sample(["cp", "bp"], 2) if pid in ("C15", "C04") and j % 2 == 0 else [rng.choice(["cp", "bp"])]
